@@ -113,6 +113,13 @@ def field_meta(schema: dict, mod):
         else:
             has_default, default = False, None
         nullable = ti.nullable or (df.default is None)
+        # a union with a None member of any width is nullable (is_field_nullable since fix 906a805)
+        try:
+            tp = eval(f["type"], dict(mod.__dict__))
+            if typing.get_origin(tp) is typing.Union and type(None) in typing.get_args(tp):
+                nullable = True
+        except Exception:  # noqa: BLE001 - the pool flag stands
+            pass
         key = f["alias"] or f["name"]
         key2 = f["name"] if (schema["allow_nba"] and f["alias"]) else None
         out.append({"name": f["name"], "type": f["type"], "key": key, "key2": key2, "has_default": has_default,
